@@ -4,6 +4,7 @@ import (
 	"fmt"
 	"regexp"
 	"strings"
+	"unicode/utf8"
 
 	"github.com/hashicorp/go-bexpr/grammar"
 )
@@ -129,12 +130,13 @@ func quoteDouble(s string) string {
 
 // Go-style escapes (\n, \t, é, \\ ...) as a second double-quoted style, for valid UTF-8 only.
 func quoteGo(s string) (string, bool) {
+	if !utf8.ValidString(s) {
+		return "", false
+	}
 	var sb strings.Builder
 	sb.WriteByte('"')
 	for _, r := range s {
 		switch {
-		case r == 0xFFFD:
-			return "", false
 		case r == '"':
 			sb.WriteString(`\x22`) // the grammar's DoubleStringChar cannot contain a double quote, even escaped
 		case r == '\\':
@@ -181,14 +183,7 @@ func literalStyles(s string) []string {
 	return out
 }
 
-func validUTF8(s string) bool {
-	for _, r := range s {
-		if r == 0xFFFD {
-			return false
-		}
-	}
-	return true
-}
+func validUTF8(s string) bool { return utf8.ValidString(s) }
 
 func renderLiteral(s string) string { return pick(rng, literalStyles(s)) }
 
